@@ -71,7 +71,13 @@ func literal(n int) []byte {
 
 // ---- model
 
-type mroot struct{ data []byte }
+type mroot struct {
+	data []byte
+	// kin: arrays that this one may or may not still share memory with (a blob that was resized may have moved to a new
+	// array, or not). Nothing is known about how a LATER write shows through to them; until such a write, their
+	// handles keep exactly what they had - in particular their own lengths.
+	kin []*mroot
+}
 
 type mhandle struct {
 	root       *mroot
@@ -348,6 +354,13 @@ func Exec(p Program, opt Options, st *Stats) []Issue {
 					break
 				}
 				wantN := 0
+				for _, k := range h.root.kin {
+					for _, o := range model {
+						if o.root == k && !o.invalid {
+							o.detached = true
+						}
+					}
+				}
 				if !isMin {
 					wantN = copy(h.content()[c.A:], srcBytes)
 				} else {
@@ -410,12 +423,30 @@ func Exec(p Program, opt Options, st *Stats) []Issue {
 					} else {
 						nd = append([]byte(nil), h.content()[:c.A]...)
 					}
-					for _, o := range model {
-						if o != h && o.root == h.root && !o.invalid {
-							o.detached = true
+					old := h.root
+					if opt.Impl == "idbblob" || c.Op == "Grow" {
+						// (typed arrays: a whole-range View is the blob itself, so even lengths of aliases follow a resize;
+						// Grow: like append on a sub-slice it may write its zeros into memory the other handles still show)
+						for _, o := range model {
+							if o == h || o.invalid {
+								continue
+							}
+							related := o.root == old
+							for _, k := range old.kin {
+								related = related || o.root == k
+							}
+							if related {
+								o.detached = true
+							}
 						}
 					}
-					h.root = &mroot{data: nd}
+					// Truncate, like re-slicing one []byte header, writes nothing: every other handle keeps its own length and what
+					// it shows, until somebody writes (then who sees the write is unspecified, see kin)
+					nr := &mroot{data: nd, kin: append(append([]*mroot(nil), old.kin...), old)}
+					for _, k := range nr.kin {
+						k.kin = append(k.kin, nr)
+					}
+					h.root = nr
 					h.start, h.end = 0, len(nd)
 				}
 			} else {
